@@ -1,39 +1,35 @@
-"""Flow row model (flowrowmodel.py): field lists with types and defaults (pydantic v1
-introspection of the working tree), header remap dictionaries (ast)."""
+"""Flow row model (flowrowmodel.py): field lists with types and defaults, header remap tables.
+
+HOW IT READS (DESIGN §2.5a) — nothing here looks at the shape of the source:
+* field names / types / defaults: pydantic v1 introspection of the classes of the tree under
+  verification (RUNTIME VALUES).  ORDER IS KEPT EXACT: the field order of a row model is semantic
+  (a sub-record written positionally in one cell is read back by position).
+* the remap tables (`header_name_to_field_name`, `field_name_to_header_name`,
+  `header_name_to_field_name_with_context`): BEHAVIOUR.  Each class's own function is evaluated on
+  a universe of candidate keys (every string constant of the module's source, every string held by
+  a module-level value, every (dotted) field name) and the table is where the function is not the
+  identity.  The context rule (`message_text` → the main-argument field of the row's `type`) is
+  found with a recording dict: the header on which the function reads the row, and the key it
+  reads.  So dict literals inside the methods, module-level constants built by comprehensions /
+  `dict.fromkeys` / an inverted table, or an if/elif chain all give the same tables.
+  These tables are lookups with unique keys: emitted SORTED by key, compared up to order
+  (`Rpft.Canon.sortP` on the model's constant).
+"""
 from __future__ import annotations
 
-import ast
-import importlib
-import sys
 import typing
 
-from ..extract_tables import REPO, _find_class, _find_func, _parse, lean_pairs, lean_str, lean_str_list
+from .. import t1lib
+from ..extract_tables import _parse, lean_pairs, lean_str, lean_str_list
 
-
-def _dict_literal(func: ast.FunctionDef, name: str) -> list[tuple[str, str]]:
-    for n in ast.walk(func):
-        if isinstance(n, ast.Assign) and any(isinstance(t, ast.Name) and t.id == name for t in n.targets):
-            d = ast.literal_eval(n.value)
-            assert isinstance(d, dict) and all(isinstance(k, str) and isinstance(v, str) for k, v in d.items())
-            # a dict literal with a repeated key keeps the last value at the first position
-            return list(d.items())
-    raise KeyError(name)
-
-
-def _class_map(mod, cls_name: str, method: str, var: str = "field_map"):
-    cls = _find_class(mod, cls_name)
-    for n in cls.body:
-        if isinstance(n, ast.FunctionDef) and n.name == method:
-            return _dict_literal(n, var)
-    return []
+MODULE = "rpft.parsers.creation.flowrowmodel"
+REL = "parsers/creation/flowrowmodel.py"
+CLASSES = ("Condition", "Webhook", "WhatsAppTemplating", "Edge", "FlowRowModel")
 
 
 def load_module():
     """import rpft.parsers.creation.flowrowmodel from the tree under verification"""
-    src = str(REPO / "src")
-    if src not in sys.path:
-        sys.path.insert(0, src)
-    return importlib.import_module("rpft.parsers.creation.flowrowmodel")
+    return t1lib.load(MODULE)
 
 
 def descr_pv(v) -> str:
@@ -61,7 +57,8 @@ def descr_val(v) -> str:
 
 
 def descr_ty(t, maps) -> str:
-    """structural descriptor, the mirror of Rpft.Row.Ty.descr"""
+    """structural descriptor, the mirror of Rpft.Row.Ty.descr (fields in declaration order, remap
+    pairs sorted by key)"""
     from rpft.parsers.common.rowparser import ParserModel
 
     if t in (str, int, float, bool):
@@ -77,82 +74,144 @@ def descr_ty(t, maps) -> str:
             d = "!" if f.required else descr_val(f.get_default())
             fs += f"{name}:{descr_ty(f.outer_type_, maps)}={d};"
         h2f, f2h = maps(t)
-        pj = lambda ps: ",".join(f"{a}>{b}" for a, b in ps)
+        pj = lambda ps: ",".join(f"{a}>{b}" for a, b in sorted(ps))  # noqa: E731
         return f"<{fs}|h2f:{pj(h2f)}|f2h:{pj(f2h)}>"
     raise TypeError(f"unsupported field type {t!r}")
 
 
-def _probed_map(cls, method: str, universe):
-    """the remap as the code BEHAVES (used when the dict literal is not where the translator looks for it):
-    every string constant of the module and every field name is put through the class's own function"""
-    f = getattr(cls, method, None)
-    if f is None:
-        return []
+# ------------------------------------------------------------------------------ the universe of keys
+
+
+def _field_paths(cls, depth=3, prefix="") -> list[str]:
+    """field names of a model and the dotted paths into its sub-models (`webhook.body`, `edges.*.from_`)"""
+    from rpft.parsers.common.rowparser import ParserModel
+
     out = []
-    for s in universe:
-        try:
-            r = f(s)
-        except Exception:  # noqa: BLE001
-            continue
-        if isinstance(r, str) and r != s:
-            out.append((s, r))
+    for name, f in getattr(cls, "__fields__", {}).items():
+        out.append(prefix + name)
+        t = f.outer_type_
+        sub, star = None, ""
+        if isinstance(t, type) and issubclass(t, ParserModel):
+            sub = t
+        elif typing.get_origin(t) is list:
+            (a,) = typing.get_args(t)
+            if isinstance(a, type) and issubclass(a, ParserModel):
+                sub, star = a, "*."
+        if sub is not None and depth > 1:
+            out += _field_paths(sub, depth - 1, prefix + name + "." + star)
+            if star:
+                out += _field_paths(sub, depth - 1, prefix + name + ".")
     return out
 
 
-def source_maps(mod_ast):
-    consts = []
-    for n in ast.walk(mod_ast):
-        if isinstance(n, ast.Constant) and isinstance(n.value, str) and n.value not in consts:
-            consts.append(n.value)
+_UNIVERSE = {}
+
+
+def universe(mod=None) -> list[str]:
+    mod = mod or load_module()
+    key = getattr(mod, "__file__", None)
+    if key in _UNIVERSE:
+        return _UNIVERSE[key]
+    from rpft.parsers.common.rowparser import ParserModel
+
+    u = t1lib.str_constants(_parse(REL))
+    u += [s for s in t1lib.runtime_strings(mod) if s not in u]
+    seen = set(u)
+    for v in list(vars(mod).values()):
+        if isinstance(v, type) and issubclass(v, ParserModel):
+            for p in _field_paths(v):
+                if p not in seen:
+                    seen.add(p)
+                    u.append(p)
+    _UNIVERSE[key] = u
+    return u
+
+
+# ------------------------------------------------------------------------------ probed tables
+
+
+def class_maps(cls, mod=None):
+    """(h2f, f2h) of one model class as its own functions BEHAVE, sorted by key"""
+    u = universe(mod)
+    u = u + [f for f in getattr(cls, "__fields__", {}) if f not in u]
+    return (
+        t1lib.probe_map(cls.header_name_to_field_name, u),
+        t1lib.probe_map(cls.field_name_to_header_name, u),
+    )
+
+
+def source_maps(mod_ast=None):
+    """`maps(cls)` for descr_ty / rowlib.desc_of_class (the argument is kept for old callers)"""
+    cache = {}
 
     def maps(cls):
-        try:
-            return (
-                _class_map(mod_ast, cls.__name__, "header_name_to_field_name"),
-                _class_map(mod_ast, cls.__name__, "field_name_to_header_name"),
-            )
-        except KeyError:
-            universe = consts + [f for f in getattr(cls, "__fields__", {}) if f not in consts]
-            return (
-                _probed_map(cls, "header_name_to_field_name", universe),
-                _probed_map(cls, "field_name_to_header_name", universe),
-            )
+        if cls not in cache:
+            cache[cls] = class_maps(cls)
+        return cache[cls]
 
     return maps
 
 
-def _main_header(func: ast.FunctionDef):
-    """`if header == "message_text": return row_type_to_main_arg[row["type"]]`"""
-    for n in ast.walk(func):
-        if isinstance(n, ast.If) and isinstance(n.test, ast.Compare) and isinstance(n.test.left, ast.Name) \
-                and n.test.left.id == "header" and len(n.test.ops) == 1 and isinstance(n.test.ops[0], ast.Eq):
-            hdr = ast.literal_eval(n.test.comparators[0])
-            for m in ast.walk(n):
-                if isinstance(m, ast.Subscript) and isinstance(m.value, ast.Name) and m.value.id == "row":
-                    return hdr, ast.literal_eval(m.slice)
-    raise KeyError("message_text rule")
+class _Recording(dict):
+    """a row that tells which of its cells the remap function looks at"""
+
+    def __init__(self, *a, **k):
+        super().__init__(*a, **k)
+        self.read = []
+
+    def __getitem__(self, k):
+        self.read.append(k)
+        return super().__getitem__(k)
+
+    def get(self, k, d=None):
+        self.read.append(k)
+        return super().get(k, d)
+
+    def __contains__(self, k):
+        self.read.append(k)
+        return super().__contains__(k)
+
+
+def context_tables(mod=None):
+    """(basic header table, main header, type column, row type → main-argument field) of
+    `FlowRowModel.header_name_to_field_name_with_context`, read off its behaviour"""
+    mod = mod or load_module()
+    f = mod.FlowRowModel.header_name_to_field_name_with_context
+    u = universe(mod)
+    # 1. on which header does the answer depend on the row, and which cell of the row is read?
+    ctx = {}
+    for h in u:
+        row = _Recording()
+        try:
+            f(h, row)
+        except Exception:  # noqa: BLE001  (KeyError: the empty row has no such cell)
+            pass
+        if row.read:
+            ctx[h] = list(dict.fromkeys(row.read))
+    assert len(ctx) == 1, ("context-dependent headers", ctx)
+    ((hdr, cols),) = ctx.items()
+    assert len(cols) == 1, ("cells of the row read for " + hdr, cols)
+    tcol = cols[0]
+    # 2. row type → field, for the context-dependent header
+    mainarg = t1lib.probe_map(lambda t: f(hdr, {tcol: t}), u, keep=lambda k, r: isinstance(r, str) and r != hdr)
+    # 3. the context-free table
+    basic = t1lib.probe_map(lambda h: f(h, {}), [h for h in u if h != hdr])
+    return basic, hdr, tcol, mainarg
 
 
 def tables() -> str:
-    mod_ast = _parse("parsers/creation/flowrowmodel.py")
     mod = load_module()
-    maps = source_maps(mod_ast)
-    frm = _find_class(mod_ast, "FlowRowModel")
-    ctx = None
-    for n in frm.body:
-        if isinstance(n, ast.FunctionDef) and n.name == "header_name_to_field_name_with_context":
-            ctx = n
-    basic = _dict_literal(ctx, "basic_header_dict")
-    mainarg = _dict_literal(ctx, "row_type_to_main_arg")
-    hdr, tcol = _main_header(ctx)
-    f2h = _class_map(mod_ast, "FlowRowModel", "field_name_to_header_name")
-    edge_h2f = _class_map(mod_ast, "Edge", "header_name_to_field_name")
-    edge_f2h = _class_map(mod_ast, "Edge", "field_name_to_header_name")
+    maps = source_maps()
+    basic, hdr, tcol, mainarg = context_tables(mod)
+    _, f2h = maps(mod.FlowRowModel)
+    edge_h2f, edge_f2h = maps(mod.Edge)
     out = []
+    out.append("/-- fields in declaration order (exact); remap pairs sorted by key -/\n")
     out.append(f"def flowRowDescr : List Char := {lean_str(descr_ty(mod.FlowRowModel, maps))}\n")
-    for cls in ("Condition", "Webhook", "WhatsAppTemplating", "Edge", "FlowRowModel"):
+    for cls in CLASSES:
         c = getattr(mod, cls)
         out.append(f"def fieldNames{cls} : List (List Char) := {lean_str_list(list(c.__fields__))}\n")
+    out.append("-- lookup tables read off the behaviour of the remap functions: sorted by key\n")
     out.append(f"def flowF2H : List (List Char × List Char) := {lean_pairs(f2h)}\n")
     out.append(f"def flowBasicHeaderDict : List (List Char × List Char) := {lean_pairs(basic)}\n")
     out.append(f"def flowRowTypeToMainArg : List (List Char × List Char) := {lean_pairs(mainarg)}\n")
